@@ -15,7 +15,44 @@ ENGINES = {
     },
 }
 
+ENGINES["diffsim"] = {
+    "serves": ["C07", "C08"],
+    "kind": "seeded operation histories on live ldiff indexes; two-party diff over real wire adapters with fault-injecting transport",
+    "real_vs_stub": {"real": ["app/ldiff (diff, hashRanges)", "headsync.NewRemoteDiff / HandleRangeRequest / DiffTypeCheck",
+                              "keyvalue.NewRemoteDiff / HandleRangeRequest", "spacesyncproto vtproto codecs"],
+                     "stub": ["transport: marshal -> bytes -> unmarshal in process, optional injected transport error at request k"]},
+}
+
 PROPS = {
+    "C07": {
+        "engine": "diffsim",
+        "level": "exploration",
+        "budget": {"quick": 40, "thorough": 600},
+        "rule": "one run = two parties whose indexes are reached through independent seeded histories (Set new/existing/multi, RemoveId) from a common base, "
+                "with swarm parameters (divide factor 2..64, threshold 1..512, uniform / hash-prefix-skewed / mixed id pools, pool 3..1500, up to 20000 in thorough), "
+                "1-4 rounds of mutate + diff in both directions through direct / head-sync wire / key-value wire adapters, both diff variants, transport error at request k in ~12% of exchanges. "
+                "Non-trivial: at least one exchange with a non-empty expected difference that needed >=2 range requests. Distinct = distinct event-kind sequences.",
+        "assumptions": COMMON_ASSUMPTIONS + ["both parties use the same divide factor and threshold (protocol constants in production: 32/256)",
+                                             "static contents during one exchange; the schedule dimension is degenerate for this property (DESIGN.md C07 fit note)"],
+        "technique": "deterministic simulation: seeded two-party histories and parameter swarm, diff over real wire adapters with injected transport faults, exact set-difference oracle and request bound",
+        "level_text": "Seeded exploration of pairs of index states reached through operation histories, diffed through the real request/response encoders; the oracle is the exact set difference "
+                      "computed from the model, plus a bound on range requests (termination). Sampling, not enumeration.",
+        "level_note": "ldiff, both remote-diff adapters and the protobuf codecs are real; the network is an in-process byte round trip",
+        "expected_probes": ["deep-split(>=3 rounds)", "deep-split(>=6 rounds)"],
+    },
+    "C08": {
+        "engine": "diffsim",
+        "level": "exploration",
+        "budget": {"quick": 40, "thorough": 600},
+        "rule": "one run = a seeded history (5-120 ops: Set new / existing same head / existing new head / multi-element, RemoveId present / absent, restart = rebuild from contents) on a live index; "
+                "after every operation the live index is compared with an index freshly filled in one call (Hash, and Ranges answers for the whole range, the canonical subdivision 3 levels deep and one occupied path 16 levels deep, with and without Elements); "
+                "at the end a second live index reaching the same contents by a shuffled history with temporary and stale entries is compared too and DiffTypeCheck must say in-sync. "
+                "evaluations = index comparisons. Non-trivial: >=3 operation kinds and non-empty final contents.",
+        "assumptions": COMMON_ASSUMPTIONS + ["claim made at the ldiff.Diff API level; DiffManager / key-value inner-storage level is covered by the C12/C15 engines"],
+        "technique": "deterministic simulation: seeded operation histories with restart-as-operation, differential oracle against a freshly rebuilt index after every step",
+        "level_text": "Seeded exploration of operation histories with a differential oracle (live index vs freshly filled index vs second history) evaluated after every operation.",
+        "level_note": "ldiff is real; reference = the same code filled in one call (the property's own definition of history independence)",
+    },
     "C20": {
         "engine": "appsim",
         "level": "fault_enumeration",
